@@ -251,7 +251,16 @@ pub fn obs_str(o: &Obs) -> String {
     }
 }
 
-fn hash_obs(h: &mut Fnv, o: &Obs) {
+fn hash_obs(h: &mut Fnv, o: &Obs, step: &Step) {
+    // which neighbour a seek for an absent key lands on depends on leaf boundaries, i.e. on
+    // the page size: keep it out of the transcript (the per-call oracle still judges it)
+    if let (Obs::Seek { found: false, rest, after_end, .. }, Step::Seek { key, .. }) = (o, step) {
+        let k = key.bytes();
+        let norm: Vec<Item> = rest.iter().filter(|i| i.0 >= k).cloned().collect();
+        h.str(&format!("seek-absent after_end={}", after_end));
+        hash_obs(h, &Obs::List(norm), &Step::Check);
+        return;
+    }
     h.str(&obs_str(o));
     if let Obs::List(v) = o {
         for i in v {
@@ -779,7 +788,7 @@ impl<'a> Engine<'a> {
                 _ => {
                     let before = if self.cfg.c06 { Some(view.clone()) } else { None };
                     let (got, exp) = self.exec(&tx, &mut cache, &mut view, &step, rw);
-                    hash_obs(&mut self.trace, &got);
+                    hash_obs(&mut self.trace, &got, &step);
                     self.judge(&step, &got, &exp, rw);
                     if step.is_mutator() && rw {
                         mutated = true;
